@@ -11,7 +11,7 @@ func init() {
 	register(&property{
 		ID: "C04",
 		Explanation: "Decides the publication discipline of the IO queue on every path: the producer writes all element words before it bumps tail and never after; the slot index is (tail %% cap)*elemLen of the very tail value the full-check used; " +
-			"the consumer reads the element after the emptiness check and before it bumps head, at (head %% cap)*elemLen; producers run wholly inside the queue mutex, which is released on every exit; " +
+			"the consumer reads the element after the emptiness check and before it bumps head, at (head % cap)*elemLen; producers run wholly inside the queue mutex, which is released on every exit; " +
 			"ErrQueueFull is returned only on the full edge computed from atomically loaded cursors; head/tail/workingFlag have one writer role each and the consumer is only called from wire handlers (single consumer). " +
 			"NOT decided: exactly-once / order under all interleavings, wrap-around arithmetic for every capacity (cap=0), cross-process memory ordering.",
 		RuleText: "R04.1 per slot store in functions with atomic Add on *queue.tail; R04.2 per slot load in functions with atomic Add on *queue.head; R04.3 must-held dataflow of queue.Mutex over the producer; R04.4 edge placement of the full check; R04.5 census of writers of *queue.{head,tail,workingFlag} and of callers of the consumer.",
@@ -182,7 +182,7 @@ func runC04(p *P, r *R) {
 					okc = false
 				}
 			}
-			r.ob("R04.2", fn+": slot index of word +"+itoa(l.K)+" is (loaded head %% cap)*queueElementLen", p.ipos(l.In), okc, true, "")
+			r.ob("R04.2", fn+": slot index of word +"+itoa(l.K)+" is (loaded head % cap)*queueElementLen", p.ipos(l.In), okc, true, "")
 			for _, rel := range rels {
 				r.ob("R04.2", fn+": element word +"+itoa(l.K)+" is read before head releases the slot", p.ipos(l.In), instrDominates(l.In, rel) && !p.reaches(rel, l.In, nil), true,
 					"releasing first lets a producer overwrite the slot being read (torn element)")
